@@ -1,1 +1,429 @@
-pub fn main(_args: &[String]) -> i32 { eprintln!("store: not built yet"); 2 }
+//! `store` mode: scripted operation sequences against the real store in a scratch directory.
+//!
+//! stdin:
+//!   CASE <name> mfs=<n> cache=<n> conc=<n> sync=<none|always> frag=<num>/<den> dead=<n> small=<n> [dir=<path>]
+//!   set <key> <value> | get <key> | del <key> | merge | reopen | clock <n> | dump | ls | cat | drophints
+//!   END
+//! stdout: one line per operation (`#`-prefixed lines carry oracle information: merge copy order).
+use std::{
+    collections::{BTreeMap, BTreeSet},
+    io::{BufRead, Write},
+    path::{Path, PathBuf},
+};
+
+use bitcask::storage::{
+    bitcask::{Bitcask, Config, Handle, SyncStrategy, VerifMergePolicy},
+    KeyValueStorage,
+};
+use bytes::Bytes;
+
+use crate::util::{hex, quiet_panics, unhex};
+
+pub struct CaseCfg {
+    pub name: String,
+    pub mfs: u64,
+    pub cache: usize,
+    pub conc: usize,
+    pub sync_always: bool,
+    pub frag: f64,
+    pub dead: u64,
+    pub small: u64,
+    pub dir: Option<PathBuf>,
+    pub policy_always: bool,
+    pub interval_ms: u64,
+    pub jitter: f64,
+    pub trig_frag: f64,
+    pub trig_dead: u64,
+    pub sync_ms: u64,
+}
+
+pub fn parse_case(line: &str) -> CaseCfg {
+    let mut c = CaseCfg {
+        name: String::new(),
+        mfs: 2 * 1024 * 1024 * 1024,
+        cache: 256,
+        conc: 1,
+        sync_always: false,
+        frag: 0.4,
+        dead: 128 * 1024 * 1024,
+        small: 10 * 1024 * 1024,
+        dir: None,
+        policy_always: false,
+        interval_ms: 3_600_000,
+        jitter: 0.0,
+        trig_frag: 0.6,
+        trig_dead: 512 * 1024 * 1024,
+        sync_ms: 0,
+    };
+    let mut it = line.split_whitespace();
+    it.next();
+    c.name = it.next().unwrap_or("?").to_string();
+    for kv in it {
+        let (k, v) = kv.split_once('=').expect("k=v");
+        let ratio = |v: &str| -> f64 {
+            let (n, d) = v.split_once('/').expect("num/den");
+            n.parse::<f64>().unwrap() / d.parse::<f64>().unwrap()
+        };
+        match k {
+            "mfs" => c.mfs = v.parse().unwrap(),
+            "cache" => c.cache = v.parse().unwrap(),
+            "conc" => c.conc = v.parse().unwrap(),
+            "sync" => c.sync_always = v == "always",
+            "frag" => c.frag = ratio(v),
+            "dead" => c.dead = v.parse().unwrap(),
+            "small" => c.small = v.parse().unwrap(),
+            "dir" => c.dir = Some(PathBuf::from(v)),
+            "policy" => c.policy_always = v == "always",
+            "interval" => c.interval_ms = v.parse().unwrap(),
+            "jitter" => c.jitter = ratio(v),
+            "tfrag" => c.trig_frag = ratio(v),
+            "tdead" => c.trig_dead = v.parse().unwrap(),
+            "syncms" => c.sync_ms = v.parse().unwrap(),
+            _ => panic!("unknown case key {}", k),
+        }
+    }
+    c
+}
+
+pub fn make_config(c: &CaseCfg, dir: &Path) -> Config {
+    let mut conf = Config::default();
+    conf.path(dir)
+        .concurrency(c.conc)
+        .readers_cache_size(c.cache)
+        .max_file_size(c.mfs)
+        .sync(if c.sync_always {
+            SyncStrategy::Always
+        } else if c.sync_ms > 0 {
+            SyncStrategy::IntervalMs(c.sync_ms)
+        } else {
+            SyncStrategy::None
+        })
+        .merge_policy(if c.policy_always { VerifMergePolicy::Always } else { VerifMergePolicy::Never })
+        .merge_check_interval_ms(c.interval_ms)
+        .merge_check_jitter(c.jitter)
+        .merge_trigger_fragmentation(c.trig_frag)
+        .merge_trigger_dead_bytes(c.trig_dead)
+        .merge_threshold_fragmentation(c.frag)
+        .merge_threshold_dead_bytes(c.dead)
+        .merge_threshold_small_file(c.small);
+    conf
+}
+
+/// Independent decoder of the on-disk record layout (bincode 1.x defaults), used to read the
+/// merge copy order back from merge outputs and by the `cat` operation's consumers.
+pub fn decode_entries(buf: &[u8]) -> Vec<(i64, Vec<u8>, Option<Vec<u8>>, u64, u64)> {
+    let mut out = Vec::new();
+    let mut p = 0usize;
+    let rd = |p: usize| -> Option<u64> {
+        if p + 8 > buf.len() {
+            None
+        } else {
+            Some(u64::from_le_bytes(buf[p..p + 8].try_into().unwrap()))
+        }
+    };
+    loop {
+        let start = p;
+        let ts = match rd(p) {
+            Some(x) => x as i64,
+            None => break,
+        };
+        p += 8;
+        let kl = match rd(p) {
+            Some(x) => x as usize,
+            None => break,
+        };
+        p += 8;
+        if p + kl > buf.len() {
+            break;
+        }
+        let k = buf[p..p + kl].to_vec();
+        p += kl;
+        if p >= buf.len() {
+            break;
+        }
+        let tag = buf[p];
+        p += 1;
+        let v = if tag == 0 {
+            None
+        } else {
+            let vl = match rd(p) {
+                Some(x) => x as usize,
+                None => break,
+            };
+            p += 8;
+            if p + vl > buf.len() {
+                break;
+            }
+            let v = buf[p..p + vl].to_vec();
+            p += vl;
+            Some(v)
+        };
+        out.push((ts, k, v, start as u64, (p - start) as u64));
+    }
+    out
+}
+
+pub fn list_dir(dir: &Path) -> BTreeMap<String, Vec<u8>> {
+    let mut m = BTreeMap::new();
+    if let Ok(rd) = std::fs::read_dir(dir) {
+        for e in rd.flatten() {
+            let name = e.file_name().to_string_lossy().to_string();
+            if name.contains(".bitcask.") {
+                m.insert(name, std::fs::read(e.path()).unwrap_or_default());
+            }
+        }
+    }
+    m
+}
+
+fn short_name(n: &str) -> String {
+    // "12.bitcask.data" -> "12.data"
+    n.replace(".bitcask.", ".")
+}
+
+fn file_id(n: &str) -> u64 {
+    n.split('.').next().unwrap().parse().unwrap_or(u64::MAX)
+}
+
+pub fn show_ls(dir: &Path, full: bool) -> String {
+    let files = list_dir(dir);
+    let mut names: Vec<&String> = files.keys().collect();
+    names.sort_by_key(|n| (file_id(n), n.ends_with("hint")));
+    let items: Vec<String> = names
+        .iter()
+        .map(|n| {
+            let b = &files[*n];
+            if full {
+                format!("{}={}", short_name(n), if b.is_empty() { "-".to_string() } else { b.iter().map(|x| format!("{:02x}", x)).collect() })
+            } else {
+                let mut h: u64 = 0;
+                for x in b {
+                    h = (h * 31 + *x as u64) % 4294967296;
+                }
+                format!("{}={}:{}", short_name(n), b.len(), h)
+            }
+        })
+        .collect();
+    items.join(",")
+}
+
+pub fn show_dump(h: &Handle) -> String {
+    let d = h.verif_dump();
+    let mut ks: Vec<String> = d
+        .keydir
+        .iter()
+        .map(|(k, f, p, l, t)| format!("{}:{}:{}:{}:{}", hex(k), f, p, l, t))
+        .collect();
+    ks.sort();
+    let mut ss: Vec<(u64, String)> = d.stats.iter().map(|(f, l, dd, db)| (*f, format!("{}:{}:{}:{}", f, l, dd, db))).collect();
+    ss.sort();
+    format!(
+        "dump a={} w={} k=[{}] s=[{}]",
+        d.active_fileid,
+        d.written_bytes,
+        ks.join(","),
+        ss.into_iter().map(|x| x.1).collect::<Vec<_>>().join(",")
+    )
+}
+
+fn data_ids(dir: &Path) -> BTreeSet<u64> {
+    list_dir(dir).keys().filter(|n| n.ends_with(".data")).map(|n| file_id(n)).collect()
+}
+
+/// Keys in the order a merge copied them: entries of the data files that appeared during the merge
+/// and have a hint file, by ascending id then position.
+fn merge_order(dir: &Path, before: &BTreeSet<u64>) -> Vec<Vec<u8>> {
+    let files = list_dir(dir);
+    let mut out = Vec::new();
+    for id in data_ids(dir) {
+        if before.contains(&id) {
+            continue;
+        }
+        if !files.contains_key(&format!("{}.bitcask.hint", id)) {
+            continue;
+        }
+        for (_, k, _, _, _) in decode_entries(&files[&format!("{}.bitcask.data", id)]) {
+            out.push(k);
+        }
+    }
+    out
+}
+
+pub struct Live {
+    pub kv: Option<Bitcask>,
+    pub h: Option<Handle>,
+}
+
+pub fn run_case(c: &CaseCfg, ops: &[String], out: &mut dyn Write, scratch: &Path) {
+    let dir = c.dir.clone().unwrap_or_else(|| scratch.join(&c.name));
+    if c.dir.is_none() {
+        let _ = std::fs::remove_dir_all(&dir);
+        std::fs::create_dir_all(&dir).unwrap();
+    }
+    bitcask::verif::set_clock(1);
+    let mut live = Live { kv: None, h: None };
+    let opened = std::panic::catch_unwind(|| make_config(c, &dir).open());
+    match opened {
+        Ok(Ok(kv)) => {
+            live.h = Some(kv.get_handle());
+            live.kv = Some(kv);
+            writeln!(out, "open ok").unwrap();
+        }
+        Ok(Err(e)) => writeln!(out, "open err:{}", e).unwrap(),
+        Err(_) => writeln!(out, "open panic").unwrap(),
+    }
+    let mut dead = live.h.is_none();
+    for line in ops {
+        let mut it = line.split_whitespace();
+        let cmd = it.next().unwrap_or("");
+        if dead && cmd != "ls" && cmd != "cat" && cmd != "reopen" {
+            writeln!(out, "abandoned").unwrap();
+            continue;
+        }
+        let res: String = match cmd {
+            "set" => {
+                let k = Bytes::from(unhex(it.next().unwrap()));
+                let v = Bytes::from(unhex(it.next().unwrap_or("-")));
+                let h = live.h.as_ref().unwrap().clone();
+                match std::panic::catch_unwind(std::panic::AssertUnwindSafe(|| h.set(k, v))) {
+                    Ok(Ok(())) => "ok".into(),
+                    Ok(Err(e)) => format!("err:{}", e),
+                    Err(_) => {
+                        dead = true;
+                        "panic".into()
+                    }
+                }
+            }
+            "get" => {
+                let k = Bytes::from(unhex(it.next().unwrap()));
+                let h = live.h.as_ref().unwrap().clone();
+                match std::panic::catch_unwind(std::panic::AssertUnwindSafe(|| h.get(k))) {
+                    Ok(Ok(Some(v))) => format!("some:{}", hex(&v)),
+                    Ok(Ok(None)) => "none".into(),
+                    Ok(Err(e)) => format!("err:{}", e),
+                    Err(_) => {
+                        dead = true;
+                        "panic".into()
+                    }
+                }
+            }
+            "del" => {
+                let k = Bytes::from(unhex(it.next().unwrap()));
+                let h = live.h.as_ref().unwrap().clone();
+                match std::panic::catch_unwind(std::panic::AssertUnwindSafe(|| h.del(k))) {
+                    Ok(Ok(b)) => format!("{}", b),
+                    Ok(Err(e)) => format!("err:{}", e),
+                    Err(_) => {
+                        dead = true;
+                        "panic".into()
+                    }
+                }
+            }
+            "merge" => {
+                let before = data_ids(&dir);
+                let h = live.h.as_ref().unwrap().clone();
+                let sel = h.verif_fileids_to_merge().map(|v| v.iter().map(|x| x.to_string()).collect::<Vec<_>>().join(",")).unwrap_or_else(|e| format!("err:{}", e));
+                let r = match std::panic::catch_unwind(std::panic::AssertUnwindSafe(|| h.verif_merge())) {
+                    Ok(Ok(())) => "ok".to_string(),
+                    Ok(Err(e)) => format!("err:{}", e),
+                    Err(_) => {
+                        dead = true;
+                        "panic".into()
+                    }
+                };
+                let ord: Vec<String> = merge_order(&dir, &before).iter().map(|k| if k.is_empty() { "-".to_string() } else { k.iter().map(|x| format!("{:02x}", x)).collect() }).collect();
+                writeln!(out, "#order {}", ord.join(",")).unwrap();
+                writeln!(out, "#selected {}", sel).unwrap();
+                r
+            }
+            "reopen" => {
+                live.h = None;
+                live.kv = None;
+                match std::panic::catch_unwind(|| make_config(c, &dir).open()) {
+                    Ok(Ok(kv)) => {
+                        live.h = Some(kv.get_handle());
+                        live.kv = Some(kv);
+                        dead = false;
+                        "ok".into()
+                    }
+                    Ok(Err(e)) => {
+                        dead = true;
+                        format!("err:{}", e)
+                    }
+                    Err(_) => {
+                        dead = true;
+                        "panic".into()
+                    }
+                }
+            }
+            "clock" => {
+                bitcask::verif::set_clock(it.next().unwrap().parse().unwrap());
+                "ok".into()
+            }
+            "dump" => show_dump(live.h.as_ref().unwrap()),
+            "ls" => format!("ls {}", show_ls(&dir, false)),
+            "cat" => format!("cat {}", show_ls(&dir, true)),
+            "drophints" => {
+                // close, delete every hint file, reopen (C12)
+                live.h = None;
+                live.kv = None;
+                for n in list_dir(&dir).keys() {
+                    if n.ends_with(".hint") {
+                        let _ = std::fs::remove_file(dir.join(n));
+                    }
+                }
+                match std::panic::catch_unwind(|| make_config(c, &dir).open()) {
+                    Ok(Ok(kv)) => {
+                        live.h = Some(kv.get_handle());
+                        live.kv = Some(kv);
+                        "ok".into()
+                    }
+                    Ok(Err(e)) => {
+                        dead = true;
+                        format!("err:{}", e)
+                    }
+                    Err(_) => {
+                        dead = true;
+                        "panic".into()
+                    }
+                }
+            }
+            _ => "badop".into(),
+        };
+        writeln!(out, "{}", res).unwrap();
+    }
+    live.h = None;
+    live.kv = None;
+    writeln!(out, "end").unwrap();
+    out.flush().unwrap();
+    if c.dir.is_none() {
+        let _ = std::fs::remove_dir_all(&dir);
+    }
+}
+
+pub fn main(_args: &[String]) -> i32 {
+    quiet_panics();
+    let scratch = PathBuf::from(format!("/dev/shm/bcv-{}", std::process::id()));
+    std::fs::create_dir_all(&scratch).unwrap();
+    let stdin = std::io::stdin();
+    let stdout = std::io::stdout();
+    let mut out = std::io::BufWriter::new(stdout.lock());
+    let mut cur: Option<CaseCfg> = None;
+    let mut ops: Vec<String> = Vec::new();
+    for line in stdin.lock().lines() {
+        let line = line.unwrap();
+        if line.starts_with("CASE") {
+            cur = Some(parse_case(&line));
+            ops.clear();
+        } else if line.trim() == "END" {
+            if let Some(c) = cur.take() {
+                writeln!(out, "case {}", c.name).unwrap();
+                run_case(&c, &ops, &mut out, &scratch);
+            }
+        } else if !line.trim().is_empty() {
+            ops.push(line);
+        }
+    }
+    let _ = std::fs::remove_dir_all(&scratch);
+    0
+}
